@@ -685,13 +685,14 @@ def baseexc_task(task, ctx: Ctx):
     for site in ("alarm", "watch", "idle"):
         if loopname == "trio" and site == "idle":
             continue  # (exceptions from idle callbacks under trio: see the known finding)
-        for exc_cls in (SystemExit, KeyboardInterrupt, Quit):
+        for exc_cls in (SystemExit, KeyboardInterrupt, Quit, ExceptionGroup):
             ctx.count("evaluations")
             case = {"part": "baseexc", "loop": loopname, "site": site, "exc": exc_cls.__name__}
             logging.disable(logging.CRITICAL)
             w = World(())
             evl, mkfd, closer = MAKERS[loopname](w)
-            raised = exc_cls("from " + site)
+            # (a group with a single member: the callback raised the group, not its member)
+            raised = exc_cls("from " + site) if exc_cls is not ExceptionGroup else ExceptionGroup("from " + site, [ValueError("member")])
             state = {"armed": True}
 
             def boom(*_a):
@@ -721,7 +722,12 @@ def baseexc_task(task, ctx: Ctx):
             except Horizon as e:
                 res = f"HORIZON:{e}"
             except BaseException as e:  # noqa: BLE001
-                res = "raised-same" if e is raised else f"raised-other:{type(e).__name__}"
+                same = e is raised or (
+                    # (a group may be re-created on its way out: same message and members is the same group)
+                    isinstance(raised, ExceptionGroup) and isinstance(e, ExceptionGroup) and e.message == raised.message
+                    and [type(x) for x in e.exceptions] == [type(x) for x in raised.exceptions]
+                )
+                res = "raised-same" if same else f"raised-other:{type(e).__name__}"
             finally:
                 logging.disable(logging.NOTSET)
                 if closer:
@@ -734,6 +740,57 @@ def baseexc_task(task, ctx: Ctx):
                 ctx.violation("raise-once", f"C13/raise-once/{loopname}/base-exception/{site}", case, f"{exc_cls.__name__} raised by the {site} callback: run() {res}")
             else:
                 ctx.distinct("nontrivial", (loopname, "baseexc", site, exc_cls.__name__))
+
+
+# ---------------------------------------------------------------------- part 6: a callback that takes time
+def slow_task(task, ctx: Ctx):
+    """alarm S (due 0.1) runs long enough for alarm B (due 0.5) to become overdue and then registers alarm A with delay 0: B is due before A, so the
+    order is S, B, A; likewise with A registered with a small positive delay that is still due after B"""
+    (loopname,) = task
+    env.reset("utf-8")
+    for delay_a in (0, 0.05):
+        ctx.count("evaluations")
+        case = {"part": "slow", "loop": loopname, "delay_a": delay_a}
+        logging.disable(logging.CRITICAL)
+        w = World(())
+        evl, _mkfd, closer = MAKERS[loopname](w)
+        log = []
+
+        def a_cb(*_a):
+            log.append("A")
+
+        def s_cb(*_a):
+            log.append("S")
+            w.t += 1.0  # the callback takes a second of (virtual) time
+            evl.alarm(delay_a, a_cb)
+
+        def b_cb(*_a):
+            log.append("B")
+
+        def end(*_a):
+            raise ExitMainLoop
+
+        evl.alarm(0.1, s_cb)
+        evl.alarm(0.5, b_cb)
+        evl.alarm(5.0, end)
+        res = "ok"
+        try:
+            with contextlib.redirect_stdout(io.StringIO()), contextlib.redirect_stderr(io.StringIO()):
+                evl.run()
+        except Horizon as e:
+            res = f"HORIZON:{e}"
+        except BaseException as e:  # noqa: BLE001
+            res = f"EXC:{exc_site(e)}"
+        finally:
+            logging.disable(logging.NOTSET)
+            if closer:
+                with contextlib.suppress(BaseException):
+                    closer()
+        ctx.obs(loopname, delay_a, log, res)
+        if res != "ok" or log != ["S", "B", "A"]:
+            ctx.violation("alarm-order", f"C13/alarm-order/{loopname}/overdue-before-new", case, f"callbacks ran in the order {log} ({res}); B (due 0.5) was overdue when A (delay {delay_a} at t=1.1) was registered, so S, B, A is required")
+        else:
+            ctx.distinct("nontrivial", (loopname, "slow", delay_a))
 
 
 def alarm_orders(nmax):
@@ -771,6 +828,7 @@ def run(tier, R):
     R.run_tasks(prerun_task, [(ln,) for ln in LOOPS], recheck=0.0, task_timeout=600)
     R.run_tasks(twin_task, [("asyncio",), ("tornado",)], recheck=0.0, task_timeout=600)
     R.run_tasks(baseexc_task, [(ln,) for ln in LOOPS], recheck=0.0, task_timeout=600)
+    R.run_tasks(slow_task, [(ln,) for ln in LOOPS if ln != "trio"], recheck=0.0, task_timeout=600)  # (trio runs on its own mock clock)
     ev = int(R.ctx.counts["evaluations"])
     nt = len(R.ctx.sets.get("nontrivial", ()))
     cov = {
@@ -784,7 +842,7 @@ def run(tier, R):
         f"schedule with at most {2 if tier == 'quick' else 3} deviations (trio: {1 if tier == 'quick' else 2}) from the default environment answer (which readable descriptors a wait "
         "reports, in which order; trio: batch reversal per scheduler tick); each execution judged by the contract acceptor. Part 2: every registration order of n alarms with distinct due "
         f"times (n up to {ALARM_NMAX[tier]}), with no removal, each alarm removed before run(), and each alarm removed from the callback of the earliest other alarm: firing order, firing "
-        "times and remove_alarm results. Part 3: three readable watches and two idle callbacks registered before run(), every subset of them removed again before run(); alarm callbacks are plain functions, functools.partial objects and callable instances. Part 4: two asyncio / tornado event-loop objects over one underlying loop, created in either order. Part 5: SystemExit / KeyboardInterrupt / an application BaseException raised by an alarm, watch or idle callback on every loop. non-trivial = distinct (loop, program, callback trace, result)",
+        "times and remove_alarm results. Part 3: three readable watches and two idle callbacks registered before run(), every subset of them removed again before run(); alarm callbacks are plain functions, functools.partial objects and callable instances. Part 4: two asyncio / tornado event-loop objects over one underlying loop, created in either order. Part 5: SystemExit / KeyboardInterrupt / an application BaseException raised by an alarm, watch or idle callback on every loop (also a one-member ExceptionGroup). Part 6: a callback that takes a second of virtual time while another alarm becomes overdue, then registers a zero-delay alarm. non-trivial = distinct (loop, program, callback trace, result)",
         "exhaustive": True,
         "bound": {"deviations": 2 if tier == "quick" else 3, "trio_deviations": 1 if tier == "quick" else 2},
         "distinct_outcome_sets": len(R.ctx.sets.get("outcomes", ())),
@@ -806,6 +864,9 @@ def replay(case, ctx):
         return tuple(tup(x) if isinstance(x, (list, tuple)) else x for x in p)
 
     loopname = case["loop"]
+    if case.get("part") == "slow":
+        slow_task((loopname,), ctx)
+        return
     if case.get("part") == "baseexc":
         baseexc_task((loopname,), ctx)
         return
